@@ -989,6 +989,24 @@ def _(m):
     F.__imul__ = __imul__
 
 
+@mutant("c02_detached_fibers_remembered_for_the_process", "C02")
+def _(m):
+    # round 10: every fiber ever detached is kept in a mutable default list and detached again by every later clear();
+    # a detached sub-tree the program still holds and has made the root of a new tensor loses its rank entry
+    F = m["Fiber"]
+
+    def _detachDescendants(self, _seen=[]):
+        for p in self.payloads:
+            if isinstance(p, F):
+                p._detachDescendants()
+                _seen.append(p)
+        for p in _seen:
+            owner = p.getOwner()
+            if owner is not None:
+                owner.remove(p)
+    F._detachDescendants = _detachDescendants
+
+
 def apply(name):
     if name not in MUTANTS:
         raise SystemExit(f"unknown mutant {name}; known: {sorted(MUTANTS)}")
